@@ -31,6 +31,7 @@ deriving Repr
 
 inductive SOp where
   | sd (d : Nat) (tag : Tag) | sa (t : Time) (tag : Tag) | ut (tag : Tag) | u1 | pt (tag : Tag) | rs | emit (v : Int)
+  | throw
 deriving Repr
 
 inductive Kind where
@@ -199,9 +200,11 @@ def applySched (p : CProg) (s : St) (inst idx : Nat) (r : NS × Option Time) : S
 def qStr (ns : NS) (now : Time) : String :=
   s!"q={nextScheduledTime ns},{b01 (isScheduled ns)},{b01 (isScheduledNow ns now)}"
 
+/-- run the scheduler operations of one script step; the `Bool` says whether a `throw` op was reached
+    (the operations before it have taken effect, the ones after it are not executed) -/
 def runSOps (p : CProg) (inst idx : Nat) (now : Time) (started : Bool) :
-    List SOp → St → Option Int → St × Option Int
-  | [], s, e => (s, e)
+    List SOp → St → Option Int → St × Option Int × Bool
+  | [], s, e => (s, e, false)
   | op :: rest, s, e =>
     let ns := (s.node inst idx).ns
     match op with
@@ -212,6 +215,7 @@ def runSOps (p : CProg) (inst idx : Nat) (now : Time) (started : Bool) :
     | .pt tag => runSOps p inst idx now started rest (s.setNode inst idx { s.node inst idx with ns := (popTag ns tag 0).1 }) e
     | .rs => runSOps p inst idx now started rest (s.setNode inst idx { s.node inst idx with ns := reset ns }) e
     | .emit v => runSOps p inst idx now started rest s (some v)
+    | .throw => (s, e, true)
 
 def hasScheduler : Kind → Bool
   | .src _ | .script _ | .probe => true
@@ -287,8 +291,11 @@ def userEval (p : CProg) : Nat → Nat → Nat → Time → St → UserRes
       let sc := (lookup p.scripts id).getD []
       let n := s.node inst idx
       let before := qStr n.ns t
-      let (s1, e) := runSOps p inst idx t true (sc.getD n.k []) s none
+      let (s1, e, thrown) := runSOps p inst idx t true (sc.getD n.k []) s none
       let s2 := s1.setNode inst idx { s1.node inst idx with k := n.k + 1 }
+      if thrown then
+        { st := s2.logf s!"E {lbl} {t} k={n.k} {before} THROW", ok := false, msg := "boom-eval-script" }
+      else
       let s3 := match e with
         | some v => writeOut p s2 inst idx .main v "" t
         | none => s2
@@ -441,7 +448,7 @@ def nodeStart (p : CProg) : Nat → Nat → Nat → Time → St → UserRes
       { st := markStarted s2 }
     | .script id =>
       let sc := (lookup p.scripts id).getD []
-      let (s1, _) := runSOps p inst idx t false (sc.getD 0 []) s none
+      let (s1, _, _) := runSOps p inst idx t false (sc.getD 0 []) s none
       let s2 := s1.setNode inst idx { s1.node inst idx with k := 1 }
       { st := markStarted (s2.logf s!"B {lbl} {t} {qStr (s2.node inst idx).ns t}") }
     | .thrower id =>
